@@ -23,7 +23,10 @@ _F32 = [f32(v) for v in [0.0, -0.0, 1.0, -1.0, 0.5, 1.5, 2.0, 5.0, 3.4e38, -3.4e
 _STR = ["", "a", "b", "ab", "A", "10", "9", "09", "-1", "1e3", "true", "é", "日本", "\U0001f600", "z", " ", "a b"]
 _DATES = [dt.date(1970, 1, 1), dt.date(1969, 12, 31), dt.date(2024, 2, 29), dt.date(1, 1, 1), dt.date(9999, 12, 31), dt.date(2000, 1, 1)]
 _TS = [dt.datetime(1970, 1, 1), dt.datetime(1969, 12, 31, 23, 59, 59, 999999), dt.datetime(2024, 2, 29, 12, 0, 0, 1),
-       dt.datetime(2000, 1, 1), dt.datetime(2262, 1, 1), dt.datetime(1900, 1, 1, 0, 0, 0, 500000)]
+       dt.datetime(2000, 1, 1), dt.datetime(2262, 1, 1), dt.datetime(1900, 1, 1, 0, 0, 0, 500000),
+       # the whole range of timestamp[us] as python datetimes, with microseconds that a double cannot hold out there
+       dt.datetime(1, 1, 1, 0, 0, 0, 1), dt.datetime(9999, 12, 31, 23, 59, 59, 999999), dt.datetime(2999, 12, 31, 23, 59, 59, 999999),
+       dt.datetime(2600, 1, 1, 0, 0, 0, 1), dt.datetime(2600, 1, 1, 0, 0, 0, 2), dt.datetime(2600, 1, 1)]
 _TIMES = [dt.time(0, 0, 0), dt.time(23, 59, 59, 999999), dt.time(12, 0), dt.time(0, 0, 0, 1)]
 _BIN = [b"", b"\x00", b"a", b"ab", b"\xff\xfe", b"10", b"9"]
 _UUIDS = ["00000000-0000-0000-0000-000000000000", "ffffffff-ffff-ffff-ffff-ffffffffffff", "123e4567-e89b-12d3-a456-426614174000"]
@@ -50,7 +53,8 @@ def value_strategy(typ: str, small: bool = False):
     if typ == "date":
         return st.one_of(st.sampled_from(_DATES), st.dates(dt.date(1900, 1, 1), dt.date(2100, 1, 1)))
     if typ == "timestamp":
-        return st.one_of(st.sampled_from(_TS), st.datetimes(dt.datetime(1900, 1, 1), dt.datetime(2200, 1, 1)))
+        return st.one_of(st.sampled_from(_TS), st.datetimes(dt.datetime(1900, 1, 1), dt.datetime(2200, 1, 1)),
+                         st.datetimes(dt.datetime(1, 1, 1), dt.datetime(9999, 12, 31, 23, 59, 59, 999999)))
     if typ == "time":
         return st.one_of(st.sampled_from(_TIMES), st.times())
     raise ValueError(typ)
